@@ -458,5 +458,5 @@ func C08() int {
 	r.Set("exhaustive", !capped)
 	r.Set("rule", "cell table: every printable ASCII character plus \\n and \\t (97) x position {only, first, middle, last} x 15 data paths x 5 origins on Bash (literal, read from file, standard input, command output, standard input read inside a function) plus the literal origin on the Batch target under the cmd.exe model (runs the model does not decide are skipped and counted), one program per cell, observed by framed prints and by listing/reading the sandbox afterwards (no file may appear that the program did not write; written files must hold the exact bytes); plus a list of multi-character hazards on every path/origin and all strings of length 2 over the alphabet on the three most exposed paths (replaces the property's random strings: sampling is outside this technique). Distinct by (value, path, origin).")
 	r.Assumef("known findings are listed per (path, origin, position) with the exact set of failing characters; a failing 2-character string is attributed to a listed single-character cell of one of its characters, anything else is a violation")
-	return r.Finish()
+	return finish(r)
 }
